@@ -547,10 +547,14 @@ impl LogReader {
 
         // Parse the payload
         let serialized_block = [header_buffer.to_vec(), data_buffer].concat();
-        let block_record: BlockRecord = BlockRecord::try_from(&serialized_block)?;
+
+        // The bytes were consumed from the file whether or not they parse, so account for them
+        // before parsing. Otherwise a damaged fragment desynchronizes the block offset from the
+        // file cursor and every later block trailer is looked for in the wrong place.
         self.current_cursor_position += header_buffer.len() + data_bytes_read;
         self.current_block_offset =
             (self.current_block_offset + data_bytes_read) % BLOCK_SIZE_BYTES;
+        let block_record: BlockRecord = BlockRecord::try_from(&serialized_block)?;
 
         Ok(block_record)
     }
